@@ -30,15 +30,30 @@ def compile_raw(exe, workdir, stem, text, timeout=120):
     return funcs, stem + ".mmm"
 
 
-def run_real(exe, workdir, stem, text, timeout=60):
+def run_real(exe, workdir, stem, text, timeout=60, trace=None):
+    """trace: a list to receive the per-instruction records of the trace hook (function, ip, frames, scope markers, operand stack)"""
     src = os.path.join(workdir, stem + ".ms")
     with open(src, "w") as f:
         f.write(text)
+    env = dict(os.environ, RUST_BACKTRACE="0")
+    tf = None
+    if trace is not None:
+        tf = os.path.join(workdir, stem + ".trace")
+        if os.path.exists(tf):
+            os.remove(tf)
+        env["MSCRIPT_VERIF_TRACE"] = tf
     try:
-        p = subprocess.run([exe, "run", stem + ".ms", "-q"], cwd=workdir, text=True, capture_output=True,
-                           env=dict(os.environ, RUST_BACKTRACE="0"), timeout=timeout)
+        p = subprocess.run([exe, "run", stem + ".ms", "-q"], cwd=workdir, text=True, capture_output=True, env=env, timeout=timeout)
     except subprocess.TimeoutExpired:
         return None, ["<timeout>"], ""
+    finally:
+        if tf and os.path.exists(tf):
+            with open(tf) as f:
+                for line in f:
+                    t = line.split()
+                    if len(t) == 6:
+                        trace.append((t[0], int(t[1]), int(t[3]), int(t[4]), int(t[5])))
+            os.remove(tf)
     lines = p.stdout.split("\n")
     if lines and lines[-1] == "":
         lines.pop()
@@ -72,9 +87,9 @@ def concrete(run, *a):
     return p["status"], [ref.fmt_value(v) for v in p["out"]], p["detail"]
 
 
-def predict_impl(funcs, module_path, values):
+def predict_impl(funcs, module_path, values, trace=None):
     inputs = {ref.input_literal(k): v for k, v in enumerate(values)}
-    return concrete(lambda o: vm.run_module(funcs, module_path, o, inputs))
+    return concrete(lambda o: vm.run_module(funcs, module_path, o, inputs, trace=trace))
 
 
 def predict_ref(prog, values):
